@@ -183,28 +183,41 @@ func (w *vWorld) regate() (prim, cache *vGate) {
 }
 
 // ---------------------------------------------------------------------------
-// scheduler: goroutines announce themselves at every gated operation and wait for permission
+// scheduler ("one running request"): at most one request runs at any time, every other one is either not started,
+// held at a synchronisation point, or finished; so whatever arrives at the gate belongs to the running request.
+// Synchronisation points: the first statement of a profile load and the begin of a write transaction.
 
 type vSched struct {
 	mu      sync.Mutex
-	waiting map[int64]chan struct{} // goroutine tag -> release channel
-	arrived chan vArrival
-	tagOf   func() int64
+	current int
+	held    map[int]chan struct{}
+	events  chan vSchedEv
+	active  bool
 }
 
-type vArrival struct {
-	tag int64
-	db  string
-	op  string
-	rel chan struct{}
+type vSchedEv struct {
+	id   int
+	kind string // "point" | "done"
+	op   string
+}
+
+func vIsSyncPoint(op string) bool {
+	return strings.HasPrefix(op, "prepare:select profile_data") || op == "begin"
 }
 
 func (s *vSched) arrive(db, op string) {
-	tag := s.tagOf()
-	if tag == 0 {
-		return // not a scheduled goroutine
+	if !vIsSyncPoint(op) {
+		return
 	}
-	rel := make(chan struct{})
-	s.arrived <- vArrival{tag, db, op, rel}
-	<-rel
+	s.mu.Lock()
+	if !s.active {
+		s.mu.Unlock()
+		return
+	}
+	id := s.current
+	ch := make(chan struct{})
+	s.held[id] = ch
+	s.mu.Unlock()
+	s.events <- vSchedEv{id, "point", op}
+	<-ch
 }
